@@ -201,11 +201,17 @@ impl<T, Ptr: PointerFamily> MetaSlotMap<T, Ptr> {
 
     pub(crate) unsafe fn contains_impl(&self, key: SlotMapKey) -> bool {
         self.verify_init("contains()");
+        if key.0 >= self.capacity_impl() {
+            return false;
+        }
         self.idx_to_data[key.0] != INVALID
     }
 
     pub(crate) unsafe fn get_impl(&self, key: SlotMapKey) -> Option<&T> {
         self.verify_init("get()");
+        if key.0 >= self.capacity_impl() {
+            return None;
+        }
         match self.idx_to_data[key.0] {
             INVALID => None,
             n => Some(self.data[n].as_ref().expect(
@@ -216,6 +222,9 @@ impl<T, Ptr: PointerFamily> MetaSlotMap<T, Ptr> {
 
     pub(crate) unsafe fn get_mut_impl(&mut self, key: SlotMapKey) -> Option<&mut T> {
         self.verify_init("get_mut()");
+        if key.0 >= self.capacity_impl() {
+            return None;
+        }
         match self.idx_to_data[key.0] {
             INVALID => None,
             n => Some(self.data[n].as_mut().expect(
@@ -293,7 +302,7 @@ impl<T, Ptr: PointerFamily> MetaSlotMap<T, Ptr> {
 
     pub(crate) unsafe fn store_value(&mut self, key: SlotMapKey, value: T) -> bool {
         self.verify_init("store()");
-        if key.0 > self.capacity_impl() {
+        if key.0 >= self.capacity_impl() {
             return false;
         }
 
@@ -314,7 +323,7 @@ impl<T, Ptr: PointerFamily> MetaSlotMap<T, Ptr> {
 
     pub(crate) unsafe fn remove_impl(&mut self, key: SlotMapKey) -> Option<T> {
         self.verify_init("remove()");
-        if key.0 > self.idx_to_data.len() {
+        if key.0 >= self.idx_to_data.len() {
             return None;
         }
 
